@@ -294,7 +294,9 @@ class AffineDomain(Domain):
             self.log["yields"].append({"root": self.root.name, "where": self.m.rel(loc(call)), "state": s})
             for k in [k for k in s.d if k[0] == "v" and not k[1].startswith("0x") and self.volatile.search(k[1])]:
                 del s.d[k]
-            for k in [k for k in s.d if k[0] == "ge"]:
+            # symbols re-bound by this suspension point (loc@<line>) lose their meaning; all others are immutable
+            suffix = "@%s" % call.get("line")
+            for k in [k for k in s.d if k[0] in ("ge", "eq") and any(a.endswith(suffix) for a in k[1].atoms())]:
                 del s.d[k]
             s.d[("seg",)] = call.get("line")
             s._k = None
@@ -320,17 +322,20 @@ class AffineDomain(Domain):
                 g = a - b - Aff.const(1)
             elif op == "<":
                 g = b - a - Aff.const(1)
+            noise = re.compile(self.spec.get("fact_noise", r"cookie|->priority|peek_ikey|->status|heap_count|find_index|->name"))
             if g is not None:
                 if g.is_const():
                     return [s] if g.c >= 0 else []          # decided: infeasible branch pruned
-                s.d[("ge", g, wrap)] = True
+                if not any(noise.search(a_) for a_ in g.atoms()):
+                    s.d[("ge", g, wrap)] = True
             elif op == "==":
                 d = a - b
                 if d.is_const() and d.c != 0:
                     return []
-                s.d[("ge", a - b, wrap)] = True
-                s.d[("ge", b - a, wrap)] = True
-                s.d[("eq", a - b)] = True
+                if not any(noise.search(a_) for a_ in d.atoms()):
+                    s.d[("ge", a - b, wrap)] = True
+                    s.d[("ge", b - a, wrap)] = True
+                    s.d[("eq", a - b)] = True
             elif op == "!=":
                 if (a - b).is_zero():
                     return []
@@ -396,15 +401,19 @@ class AffineDomain(Domain):
         # havoc: every variable assigned in the loop (locals in hv, tracked memory, ghosts) gets a fresh atom,
         # then the candidate equalities are imposed by elimination
         fresh = {}
+        touches_memory = self.loop_touches_tracked(flow, info.get("parts") or [])
         for k in vars_:
             if k in keep:
                 continue
             is_local = k.startswith("0x")
-            if (is_local and k in hv) or (not is_local and (k.startswith("ghost:") or self.tracked.search(k))):
+            if (is_local and k in hv) or (not is_local and touches_memory and
+                                          (k.startswith("ghost:") or self.tracked.search(k))):
                 nm = names.get(k, k) if is_local else k
                 fresh[k] = Aff.atom("%s#%s" % (nm, tag))
+        # facts are statements about immutable symbols; only the symbols that this loop head re-binds
+        # (name#<tag>) lose their meaning here
         for k in list(s.d):
-            if k[0] in ("ge", "eq"):
+            if k[0] in ("ge", "eq") and any(a.endswith("#" + tag) for a in k[1].atoms()):
                 del s.d[k]
         if cand and cand["vars"] == vars_:
             cur = {k: (fresh[k] if k in fresh else s.d[("v", k)]) for k in vars_}
@@ -436,6 +445,40 @@ class AffineDomain(Domain):
             for k, f in fresh.items():
                 s.d[("v", k)] = f
         s._k = None
+
+    def loop_touches_tracked(self, flow, parts, depth=0, seen=None):
+        """Can an iteration of this loop change tracked memory or a ghost?  True if the loop (or a helper it
+        inlines) contains a store to memory or a call handled by the container hook; pure scans are False."""
+        seen = seen if seen is not None else set()
+        muts = set(self.spec.get("mutator_calls", ("cmi_hashheap_enqueue", "cmi_hashheap_cancel", "cmi_hashheap_remove",
+                                                   "cmi_hashheap_dequeue", "cmi_hashheap_reprioritize")))
+        for part in parts:
+            if part is None:
+                continue
+            for x in walk(part):
+                k = x["kind"]
+                tgt = None
+                if (k == "BinaryOperator" and x.get("opcode") == "=") or k == "CompoundAssignOperator":
+                    tgt = strip(kids(x)[0], casts=True)
+                elif k == "UnaryOperator" and x.get("opcode") in ("++", "--"):
+                    tgt = strip(kids(x)[0], casts=True)
+                if tgt is not None and tgt["kind"] != "DeclRefExpr":
+                    return True
+                if k == "CallExpr":
+                    nm = callee_ref(x)
+                    if nm in muts:
+                        return True
+                    if nm is None:
+                        return True
+                    key = self.m.resolve(flow.cur_unit(), nm)
+                    if key in self.may_yield:
+                        return True
+                    f = self.m.funcs.get(key)
+                    if f is not None and key not in seen and depth < 3 and self.inline(flow, f, x):
+                        seen.add(key)
+                        if self.loop_touches_tracked(flow, [f.body], depth + 1, seen):
+                            return True
+        return False
 
     def keep_at_head(self, flow, s):
         """Tracked keys whose value is pinned by a typestate fact and must not be havoc'd at loop heads."""
